@@ -873,7 +873,41 @@ def r311(ctx):
         raise AnalysisError("R-3.11: no store into the engine table found in create_engines")
 
 
+def r314(ctx, acq, methods, rid="R-3.14", what=""):
+    """Acquires belong to recorded jobs. The only release is the consumption of a job found in the
+    in-flight record (`self.locked`), so an ensemble marked busy outside a function that records the
+    job stays busy for ever when the job is never issued (e.g. saved jobs dropped at a restart with
+    fewer workers): every call of an acquiring function sits in a function that appends to
+    `self.locked`, or in an acquiring wrapper whose callers all do."""
+    def records(g):
+        return any(isinstance(c, ast.Call) and isinstance(c.func, ast.Attribute) and c.func.attr == "append" and path_of(c.func.value) == "self.locked" for c in walk_local(g))
+
+    def callers(name):
+        return [g for g in methods.values() if any(isinstance(c, ast.Call) and is_self_attr(c.func, name) for c in walk_local(g))]
+
+    def justified(g, seen=()):
+        if records(g):
+            return True
+        if g.name in acq and g.name not in seen:
+            cs = callers(g.name)
+            return bool(cs) and all(justified(h, seen + (g.name,)) for h in cs)
+        return False
+
+    n = 0
+    for name, g in methods.items():
+        for c in walk_local(g):
+            if isinstance(c, ast.Call) and is_self_attr(c.func) and c.func.attr in acq:
+                n += 1
+                if justified(g):
+                    ctx.ok(rid, c, f"{name}: the acquire belongs to a job recorded in self.locked ({'recorded here' if records(g) else 'by every caller'})")
+                else:
+                    ctx.bad(rid, c, f"REPEX_state.{name} marks an ensemble busy without recording a job for it in self.locked: the flag is released only when a job of the in-flight record is consumed, so when no job is issued for this ensemble (saved jobs dropped at a restart with fewer workers, an aborted pick) it stays busy for ever{what}", construct=f"{name}: acquire without a recorded job")
+    if n < 3:
+        raise AnalysisError(f"{rid}: only {n} acquire calls found in REPEX_state (expected >= 3)")
+
+
 def run(ctx):
+    from .shared import RuleProxy as _RP0
     ctx.rule("R-3.8", "busy-path membership tests compare path numbers in the same representation (int vs their str form in the in-flight record)", floor=3)
     ctx.rule("R-3.10", "membership tests against the busy paths consult the whole result of locked_paths() (no slice / filter)", floor=2)
     ctx.rule("R-3.9", "no `for` variable of the scheduler / engine-booking code is read after its loop has ended (a stale variable selects the last element of an earlier loop)", floor=30)
@@ -887,11 +921,16 @@ def run(ctx):
     acq_funcs, rel_funcs = r31_32(ctx)
     acq, methods = r33(ctx, acq_funcs)
     ctx.attempt(r34, ctx, acq, methods)
+    ctx.rule("R-3.14", "acquires belong to recorded jobs: every call of an acquiring function sits in a function that appends the job to self.locked (or in an acquiring wrapper whose callers all do)", floor=3)
+    ctx.attempt(r314, ctx, acq, methods)
     ctx.attempt(r35, ctx, rel_funcs, methods)
     ctx.attempt(r36, ctx)
     ctx.attempt(r37, ctx, methods)
     ctx.rule("R-3.11", "one engine object per bookable slot: each element of engines[name] comes from its own create_engine() call (no list replication)", floor=1)
     ctx.attempt(r311, ctx)
+    ctx.rule("R-3.15", "a job is drawn from a P matrix whose rows belong to the paths they are indexed by: the row sort of inf_retis is undone through the index array that sorted, kernel results land in their own windows (shared with C02 R-2.4 / R-2.5) - else a path with zero weight in an ensemble can be handed out for it", floor=5)
+    from . import c02 as _c02
+    ctx.attempt(_c02.r24_25, _RP0(ctx, "R-3.15", " (pairs with zero weight get a non-zero pick probability: pick() starts a job on a path that is not valid in its ensemble)"))
     ctx.rule("R-3.13", "the in-flight record that is persisted and re-issued names ensembles in one index unit (shared with C08 R-8.7): a job re-issued after a second restart holds the ensembles it held before", floor=4)
     from . import c08 as _c08
     from .shared import RuleProxy as _RP
@@ -903,6 +942,10 @@ def run(ctx):
 
 
 VARIANTS = [
+    B("c03-row-sort-reapplied", REPEX, "        out[sort_idx] = out.copy()", "        out = out[sort_idx]", "R-3.15", control=True, why="seeded C03_j"),
+    K("c03-keep-acquire-check-through-local", REPEX, "        assert self._locks[ens] == 0\n", "        is_free = self._locks[ens] == 0\n        assert is_free\n"),
+    B("c03-acquire-check-local-weakened", REPEX, "        assert self._locks[ens] == 0\n", "        is_free = self._locks[ens] <= 1\n        assert is_free\n", "R-3.2"),
+    B("c03-busy-flags-restored-at-load", REPEX, '            "frac": np.array(frac, dtype="longdouble"),\n        }\n\n    def pattern_header', '            "frac": np.array(frac, dtype="longdouble"),\n        }\n        for enss0, _ in self.locked0:\n            for ens in enss0:\n                self.lock(ens)\n\n    def pattern_header', "R-3.14", control=True, why="seeded C04_j (first half: ensembles of saved jobs are re-locked at load and never released when the job is dropped)"),
     B("c03-reissue-recorded-with-offset", REPEX, "        self.locked.append((enss, trajs0))\n", "        self.locked.append((enss0, trajs0))\n", "R-3.13", control=True, why="seeded C03_h (= C08_b)"),
     B("c03-engine-list-replicated", FACTORY, "        for i in range(n_create):\n            check_engine(config, eng_key=engine)\n            engine_occ[engine].append(-1)\n            engines[engine].append(create_engine(config, eng_key=engine))", "        check_engine(config, eng_key=engine)\n        engine_occ[engine] = [-1] * n_create\n        engines[engine] = [create_engine(config, eng_key=engine)] * n_create", "R-3.11", control=True, why="seeded C03_f"),
     B("c03-engine-created-once-appended-many", FACTORY, "        for i in range(n_create):\n            check_engine(config, eng_key=engine)\n            engine_occ[engine].append(-1)\n            engines[engine].append(create_engine(config, eng_key=engine))", "        one = create_engine(config, eng_key=engine)\n        for i in range(n_create):\n            check_engine(config, eng_key=engine)\n            engine_occ[engine].append(-1)\n            engines[engine].append(one)", "R-3.11"),
